@@ -29,6 +29,7 @@ func init() {
 		},
 		TrustedBase: []string{"capability worklist checker/core/cap.go over VTA∪CHA call resolution", "sink/pure classification table in checker/props/c18.go"},
 		Rules: []core.Rule{
+			{ID: "R18.9", Template: "T-MUSTPASS", Text: "what a host (WASI) function receives does not depend on the engine: the compiler's Go side zero-extends the 32-bit argument slots, as the interpreter passes them (same analysis as C08 R08.9)", Min: 4},
 			{ID: "R18.8", Template: "T-CONSULT", Text: "fd_prestat_* answer only for pre-opened directories: stdio is not reported under the default configuration (genuine defect found and fixed)", Min: 1},
 			{ID: "R18.1", Template: "T-CAP", Text: "no ambient-authority sink reachable from the WASI functions except through injection points; every external callee classified", Min: 3},
 			{ID: "R18.2", Template: "T-CAP", Text: "default bindings of the injection points (nil option) reach no sink", Min: 6},
@@ -237,6 +238,7 @@ func injectionCut(c *core.Ctx) func(site ssa.CallInstruction, in *ssa.Function) 
 
 func runC18(c *core.Ctx) {
 	checkPrestatOnlyDirectories(c)
+	checkSlotNormalisation(c, "R18.9", "")
 	c.SSA()
 	checkModuleConfigNotWritten(c)
 	checkInterpCallerInstance(c, "R18.7")
